@@ -937,18 +937,24 @@ def c32(idx: Index, rep: Report, tier: str) -> None:
                 for c in [c for st in body for c in ast.walk(st) if isinstance(c, ast.Call) and isinstance(c.func, ast.Attribute) and norm(c.func.value) == "EngineClass" and len(c.args) == 1 and isinstance(c.args[0], ast.Name) and c.args[0].id in reqs]:
                     m_sel.setdefault(c.args[0].id, set()).update(classes)
     ne = 0
-    for i in walk_no_nested(get.node):
-        if not isinstance(i, ast.If):
+    gcfg = cfg_of(get)
+    for nd in gcfg.nodes:
+        if not isinstance(nd.ast, ast.Assert):
             continue
-        for test, body in _if_chain(i):
-            if not (isinstance(test, ast.Compare) and isinstance(test.left, ast.Name) and test.left.id in m_sel and isinstance(test.ops[0], ast.IsNot)):
-                continue
-            have = issub_classes(body)
-            if not have:
-                continue
-            ne += 1
-            missing = sorted(m_sel[test.left.id] - have)
-            rep.check(not missing, rule_e, f"the report for a rejected candidate accepts every engine class that takes `{test.left.id}`", get.loc(test), construct=f"if {norm(test)}: assert issubclass(EngineClass, {sorted(have)})" + ("" if not missing else f" — selection also accepts {missing}"), detail="" if not missing else f"a candidate of class {missing} that does not meet the requested {test.left.id} is rejected by the selection and then trips this assertion while the error report is built: the caller gets an AssertionError instead of the no-suitable-engine error", function=get.qualname)
+        have = issub_classes([nd.ast])
+        if not have:
+            continue
+        req = None
+        for t, o in guards_dominating(gcfg, nd):
+            te = t.ast
+            if isinstance(te, ast.Compare) and len(te.ops) == 1 and isinstance(te.left, ast.Name) and te.left.id in m_sel and isinstance(te.comparators[0], ast.Constant) and te.comparators[0].value is None:
+                if (isinstance(te.ops[0], ast.IsNot) and o) or (isinstance(te.ops[0], ast.Is) and not o):
+                    req = te.left.id
+        if req is None:
+            continue
+        ne += 1
+        missing = sorted(m_sel[req] - have)
+        rep.check(not missing, rule_e, f"the report for a rejected candidate accepts every engine class that takes `{req}`", get.loc(nd.ast), construct=f"{req} given: assert issubclass(EngineClass, {sorted(have)})" + ("" if not missing else f" — selection also accepts {missing}"), detail="" if not missing else f"a candidate of class {missing} that does not meet the requested {req} is rejected by the selection and then trips this assertion while the error report is built: the caller gets an AssertionError instead of the no-suitable-engine error", function=get.qualname)
     rep.count("report_assertions", ne)
     rep.require_min(rule_e, "report_assertions", 2)
 
@@ -1319,16 +1325,14 @@ def sim_effects_recorded(idx: Index, rep: Report, prefix: str) -> None:
         if nd.kind != "return" or not (isinstance(nd.ast.value, ast.Tuple) and len(nd.ast.value.elts) == 2 and all(isinstance(e, ast.Constant) and e.value is None for e in nd.ast.value.elts)):
             continue
         gs = guards_dominating(ecfg, nd)
-        fires = any(norm(t.ast) == "evaluated_condition" and o for t, o in gs)
+        from ..rules2 import path_facts
+
+        facts = path_facts(ecfg, nd)
+        fires = ("evaluated_condition", True) in facts
         if not fires:
             continue
         n += 1
-        from .extra2 import guard_atoms
-
-        facts = set()
-        for t, o in gs:
-            facts |= guard_atoms(t.ast, o)
-        boolean_case = any(a.endswith(".is_bool_type()") and not a.startswith("not ") for a in facts)
+        boolean_case = any(a.endswith(".is_bool_type()") and v for a, v in facts)
         rep.check(boolean_case, rule, "_evaluate_effect: a firing effect yields no update only in the Boolean add-after-delete case", ee.loc(nd.ast), construct="return (None, None) under " + "; ".join(norm(t.ast)[:40] + ("" if o else " [false]") for t, o in gs)[:160], detail="" if boolean_case else "a firing non-Boolean effect is dropped (treated as a no-op): it is missing from the pending updates, so a conflicting second assignment in the same step is accepted", function=ee.qualname)
     rep.count("recording_sites", n)
     rep.require_min(rule, "recording_sites", 3)
